@@ -17,6 +17,7 @@ CONSTANTS
   Eagers = {FALSE, TRUE}
   Holds = {0}
   HoldFors = {0}
+  Situations = FALSE
   Algo = "ring"
   Impl = "asis"
   Sampling = FALSE
